@@ -1,6 +1,6 @@
 //go:build verif
 
-package transaction
+package ratelimiters
 
 // Lock-table extraction (shared verbatim by harness/C34 and harness/C35; only the package clause
 // differs).  Parses a Go source file at run time and derives, for every method of a struct type
